@@ -12,7 +12,7 @@ EXTENDS Runtime, IOUtils
 
 Trace == JsonDeserialize(IOEnv.TRACE_FILE)
 VARIABLE vl
-trv == <<vthreads, vnumba, vcompiled, vmgr, vfftw, vcreated, vpc, vreq, vkernel, vfftthreads, vhist, vres, vl>>
+trv == <<vthreads, vnumba, vcompiled, vmgr, vfftw, vcreated, vpc, vreq, vkernel, vfftthreads, vhist, vres, vwis, vwisload, vl>>
 
 TInit == Init /\ vl = 1
 Ev(i) == Trace[i]
@@ -26,18 +26,21 @@ Used == IF Created THEN 1 ELSE 0
 TExtInit ==  /\ Has(vl, "ext_init") /\ vpc = "idle"
              /\ vthreads' = 1 /\ vnumba' = 0 /\ vcompiled' = {} /\ vmgr' = 0 /\ vfftw' = 1 /\ vcreated' = 0
              /\ vreq' = NoReq /\ vkernel' = FALSE /\ vfftthreads' = << >> /\ vhist' = << >> /\ vres' = <<0, FALSE, << >>>>
-             /\ vpc' = "idle" /\ vl' = vl + 1
+             /\ vpc' = "idle" /\ vl' = vl + 1 /\ vwis' = "missing" /\ vwisload' = "none"
+TWis ==      /\ Has(vl, "ext_wisdom") /\ vpc = "idle"
+             /\ vwis' = Ev(vl).state /\ vl' = vl + 1 /\ vres' = <<0, FALSE, << >>>>
+             /\ UNCHANGED <<vthreads, vnumba, vcompiled, vmgr, vfftw, vcreated, vpc, vreq, vkernel, vfftthreads, vhist, vwisload>>
 TSet ==      /\ Has(vl, "ext_set_threads") /\ vpc = "idle"
              /\ vthreads' = Ev(vl).n /\ vl' = vl + 1 /\ vres' = <<0, FALSE, << >>>>
-             /\ UNCHANGED <<vnumba, vcompiled, vmgr, vfftw, vcreated, vpc, vreq, vkernel, vfftthreads, vhist>>
+             /\ UNCHANGED <<vnumba, vcompiled, vmgr, vfftw, vcreated, vpc, vreq, vkernel, vfftthreads, vhist, vwis, vwisload>>
 TReset ==    /\ Has(vl, "mgr_reset") /\ vpc = "idle"
              /\ vmgr' = 0 /\ vl' = vl + 1 /\ vres' = <<0, FALSE, << >>>>
-             /\ UNCHANGED <<vthreads, vnumba, vcompiled, vfftw, vcreated, vpc, vreq, vkernel, vfftthreads, vhist>>
+             /\ UNCHANGED <<vthreads, vnumba, vcompiled, vfftw, vcreated, vpc, vreq, vkernel, vfftthreads, vhist, vwis, vwisload>>
 TBegin ==    /\ Has(vl, "enter") /\ vpc = "idle"
              /\ vreq' = [id |-> 9, fp |-> Ev(vl).fp, an |-> Ev(vl).an]
              /\ vpc' = "source" /\ vfftthreads' = << >> /\ vkernel' = FALSE /\ vres' = <<0, FALSE, << >>>>
              /\ vl' = vl + 1
-             /\ UNCHANGED <<vthreads, vnumba, vcompiled, vmgr, vfftw, vcreated, vhist>>
+             /\ UNCHANGED <<vthreads, vnumba, vcompiled, vmgr, vfftw, vcreated, vhist, vwis, vwisload>>
 TSource ==   /\ SourceFFT /\ EnsureEvents(vl) /\ vl' = vl + Used
 TThreads ==  /\ ThreadSetup /\ EnsureEvents(vl)
              /\ IF vreq.an THEN vl' = vl + Used
@@ -58,6 +61,6 @@ TKernel ==   /\ Kernel
 TFinal ==    /\ FinalFFT /\ EnsureEvents(vl) /\ vl' = vl + Used
 TReturn ==   /\ Return /\ Has(vl, "return") /\ Ev(vl).mgr = vmgr /\ vl' = vl + 1
 
-TNext == TExtInit \/ TSet \/ TReset \/ TBegin \/ TSource \/ TThreads \/ TKernel \/ TFinal \/ TReturn
+TNext == TExtInit \/ TWis \/ TSet \/ TReset \/ TBegin \/ TSource \/ TThreads \/ TKernel \/ TFinal \/ TReturn
 Report == PrintT("@@" \o ToJson([l |-> vl, pc |-> vpc]))
 =============================================================================
